@@ -248,6 +248,15 @@ func body(s *simrt.Sim, tier string) {
 					n++
 					continue
 				}
+				// Task pauses are armed by scheduling step, so one may still fire
+				// after this instant: a paused tracker or origin handler lets the
+				// agent's HTTP timeout expire. That is a fault too: re-issue.
+				if s.PausedDuring(x.issued, x.at) {
+					s.Probe("download_reissued_after_late_pause")
+					start(x, 0)
+					n++
+					continue
+				}
 				s.Fail("download_failed_after_faults_stopped", "agent%d: download issued at %v (faults stopped at %v) returned %v", x.idx, x.issued, tStop, x.err)
 			}
 			if !x.returned {
